@@ -145,7 +145,10 @@ func (ts *Timers) Start(ctx context.Context) error {
 
 func (ts *Timers) add(ctx context.Context, e *TimerEntry) error {
 	if _, have := ts.Map[e.Id]; have {
-		return ts.cancel(ctx, e.Id)
+		// The id is taken until that timer fires or is
+		// cancelled (as in mcrew).  (This used to cancel the
+		// pending timer and drop the new one, silently.)
+		return fmt.Errorf("timer '%s' exists", e.Id)
 	}
 
 	ts.Map[e.Id] = e
@@ -172,11 +175,11 @@ func (ts *Timers) Add(ctx context.Context, id string, msg interface{}, d time.Du
 		timers: ts,
 	}
 
-	ts.add(ctx, e)
+	err := ts.add(ctx, e)
 
 	ts.Unlock()
 
-	return nil
+	return err
 }
 
 // run starts a timer that will execute the TimerEntry at the
